@@ -260,7 +260,7 @@ def alternatives(fn, rec, block, limit=12, depth=3):
         walk(d, [], {d}, [])
         return paths
 
-    extra = [([], {})]           # (raw edge constraints in execution order, flag values)
+    extra = [([], {}, [])]       # (raw edge constraints in execution order, flag values, blocks of the path in execution order)
     b, joins = block, 0
     while True:
         d = idom_of(b)
@@ -276,15 +276,15 @@ def alternatives(fn, rec, block, limit=12, depth=3):
             new = []
             for raws, blocks in paths:
                 env_p = _path_bool_env(fn, rec, blocks[:-1] if blocks and blocks[-1] == b else blocks)
-                for raws_e, env_e in extra:
+                for raws_e, env_e, blocks_e in extra:
                     env = dict(env_p)
                     env.update(env_e)
-                    new.append((raws + raws_e, env))
+                    new.append((raws + raws_e, env, [d] + blocks + blocks_e))
             extra = new
             if len(extra) > limit:
                 return [base]
         else:
-            extra = [(paths[0][0] + raws_e, env_e) for raws_e, env_e in extra]
+            extra = [(paths[0][0] + raws_e, env_e, [d] + paths[0][1] + blocks_e) for raws_e, env_e, blocks_e in extra]
         b = d
     # a constraint read at block c about a local that is assigned again on a way from c to `block` (a loop-carried `best` tested before the
     # loop, then replaced inside it) says nothing about the value the local has at `block`: such constraints are dropped
@@ -318,7 +318,17 @@ def alternatives(fn, rec, block, limit=12, depth=3):
             for y in e:
                 if isinstance(y, tuple):
                     yield from _walk(y)
-    extra = [([r for r in raws if not stale(r[1], r[3])], env) for raws, env in extra]
+    def stale_on_path(expr, c, blocks):
+        # a constraint taken on the enumerated path itself: stale only if the local is assigned again further along that path
+        if c not in blocks:
+            return stale(expr, c)
+        later = set(blocks[blocks.index(c) + 1:]) - {block}
+        for x in _walk(expr):
+            if isinstance(x, tuple) and len(x) == 2 and x[0] == 'v' and len(defs.get(x[1], [])) > 1:
+                if any(d[0] in later for d in defs[x[1]]):
+                    return True
+        return False
+    extra = [([r for r in raws if not stale_on_path(r[1], r[3], blocks)], env) for raws, env, blocks in extra]
     base = [r for r in base if not (isinstance(r[1], tuple) and stale(r[1], r[-1])) and not (len(r) > 3 and isinstance(r[2], tuple) and r[0] != 'switch' and stale(r[2], r[-1]))]
     key = lambda r: (r[0], repr(r[1:-1]))
     out = []
